@@ -451,6 +451,59 @@ class Run:
                 self.diffs.append({"engine": "hintdiff", "trace": keep, "line": 0, "kind": "model", "key": None, "case": l.split(":")[0],
                                    "text": "DIFF kind=model hint files / tree of a start differ from Model/HintIndex: " + l[:300], "input": l[:300]})
 
+    def run_collide(self, ncases, intensify=1):
+        """engine collide (C13): random histories with forced key-hash collisions on the real store (harness/cmd/collide),
+        replayed on the collision-path model Model/Collide.lean by harness/cmd/collide/CollideCheck.lean: every reply and
+        position, after every operation the collision table, what the write path sees for every key, every *.idx.s file,
+        after a GC pass range / statistics / data files.  The model reproduces every KNOWN deviation of the code from
+        the reference map, so a difference between model and implementation is behaviour that is not known."""
+        hdir = os.path.join(VERIF, "harness")
+        binp = os.path.join(self.scratch, "collide")
+        rc, o = sh(["go", "build", "-tags", "verif", "-o", binp, "./cmd/collide"], cwd=hdir, env=GOENV, timeout=1800)
+        if rc != 0:
+            self.broken.append({"kind": "harness", "name": "harness:build:collide", "detail": o[-400:]})
+            return
+        eng = self.cov["engines"].setdefault("collide", {"cases": 0, "checked": 0, "diffs": 0, "traces": 0})
+        runs = [("corpus", None)] + [(m, i) for i, m in enumerate(["full", "restart", "nomerge", "safe"])]
+        for mix, i in runs:
+            trace = os.path.join(self.scratch, "collide-%s.trace" % mix)
+            if mix == "corpus":
+                body = []
+                for cp in sorted(glob.glob(os.path.join(VERIF, "corpus", self.prop, "collide-*.txt"))):
+                    body += [l.rstrip("\n") for l in open(cp)]
+                if not body:
+                    continue
+                src = os.path.join(self.scratch, "collide-corpus.txt")
+                open(src, "w").write("\n".join(body) + "\n")
+                cmd = [binp, "-replay", src, "-out", trace]
+            else:
+                n = max(2, ncases * intensify // 4)
+                cmd = [binp, "-seed", str(self.seed * 1000003 + 131 + i), "-n", str(n), "-ops", "70" if self.tier == "quick" else "120", "-mix", mix, "-out", trace]
+            rc, o = sh(cmd, cwd=self.scratch, env=dict(GOENV, GOMAXPROCS="2"), timeout=3000)
+            if rc != 0 or not os.path.exists(trace):
+                raise MachineryError("collide harness failed (%s):\n%s" % (mix, o[-1500:]))
+            rc, o = sh(["lake", "env", "lean", "--run", os.path.join(hdir, "cmd", "collide", "CollideCheck.lean"), trace], cwd=LEAN, timeout=3000)
+            m = re.search(r"cases=(\d+) cases-with-diff=(\d+) operations-replayed=(\d+) on-colliding-keys=(\d+) comparisons-ok=(\d+) diffs=(\d+) open-race-cases=(\d+) \| client ops inside SafeR prefixes: (\d+), deviating from the reference there: (\d+) \| model replies deviating from the reference map: (\d+)", o)
+            if not m:
+                raise MachineryError("collide: the model could not be evaluated (%s):\n%s" % (mix, o[-1500:]))
+            eng["traces"] += 1
+            eng["cases"] += int(m.group(1))
+            eng["checked"] += int(m.group(5))
+            self.cov["evaluations"] += int(m.group(5))
+            d = self.cov["input_distribution"]
+            for k, g in (("operations", 3), ("operations-on-colliding-keys", 4), ("open-race-cases-skipped", 7), ("client-ops-inside-SafeR", 8), ("model-predicted-deviations-from-reference", 10)):
+                d["collide.%s.%s" % (mix, k)] = int(m.group(g))
+            lines = open(trace, errors="replace").read().split("\n")
+            for dm in re.finditer(r"DIFF case=(\S+) line=(\d+) kind=(\S+)\n\s+model: (.*)\n\s+real : (.*)", o):
+                eng["diffs"] += 1
+                self.diffs.append({"engine": "collide", "trace": trace, "line": int(dm.group(2)), "kind": "model", "key": None, "case": dm.group(1),
+                                   "text": "DIFF kind=model case=%s the real store differs from the collision-path model at %s: model=%s real=%s" % (dm.group(1), dm.group(3), dm.group(4)[:120], dm.group(5)[:120]),
+                                   "input": lines[int(dm.group(2)) - 1][:2000] if 0 < int(dm.group(2)) <= len(lines) else ""})
+            if int(m.group(9)) > 0:
+                # the theorem C13_safe_with_restarts says: inside the class SafeR the MODEL answers like the reference map
+                self.diffs.append({"engine": "collide", "trace": trace, "line": 1, "kind": "model", "key": None, "case": None,
+                                   "text": "DIFF kind=model the model deviates from the reference map inside SafeR prefixes (%s operations): the theorem C13_safe_with_restarts does not describe this model" % m.group(9), "input": ""})
+
     def collect(self, engine, trace, text, eng):
         lines = open(trace, errors="replace").read().split("\n")
         eng["traces"] += 1
@@ -651,7 +704,7 @@ class Run:
         # corpus first
         for engine_cfg in self.cfg.get("engines", []):
             engine = engine_cfg[0]
-            if engine == "hintdiff":
+            if engine in ("hintdiff", "collide"):
                 continue
             for cp in sorted(glob.glob(os.path.join(VERIF, "corpus", self.prop, engine + "-*.txt"))):
                 self.run_engine(engine, 1, 1, replay=cp)
@@ -660,6 +713,9 @@ class Run:
             extra = engine_cfg[4] if len(engine_cfg) > 4 else None
             if engine == "hintdiff":
                 self.run_hintdiff(n, intensify=intensify)
+                continue
+            if engine == "collide":
+                self.run_collide(n, intensify=intensify)
                 continue
             self.run_engine(engine, n, shards, extra=extra, intensify=intensify)
         self.probe_broken_cases()
